@@ -113,6 +113,7 @@ func runBranch(c *Ctx, ec *engCase, batch bool, mask uint, onWait func(s flows.S
 }
 
 func runC02(c *Ctx) {
+	defer runC02Palette(c)
 	r := c.Rng
 	n := c.N(800, 40000)
 	for i := 0; i < n; i++ {
@@ -186,6 +187,102 @@ func runC02(c *Ctx) {
 			c.Sample(map[string]any{"model_assets": ec.GA.ModelSpec(nil), "resumes": ec.Resumes, "batch": batch, "waits": waits, "masks": len(masks)})
 		}
 	}
+}
+
+// the same comparison over flows built from the repository's whole action palette, run on the test engine (all services
+// present): the session stored and read back before every resume against the session kept in memory
+func runC02Palette(c *Ctx) {
+	r := c.Rng
+	base, palette, err := loadActionPalette()
+	if err != nil || len(palette) < 50 {
+		c.Notes = appendNote(c.Notes, "palette stream skipped: action palette unavailable")
+		return
+	}
+	c08SeenBefore, c08NoWebhookReads = true, true
+	defer func() { c08SeenBefore, c08NoWebhookReads = false, false }()
+	for i := 0; i < c.N(120, 4000); i++ {
+		aj, fu, shape := c08Scenario(r, i, base, palette)
+		// the transient @webhook and the deprecated @legacy_extra are allowed to differ after a restart: flows that read them are not compared
+		skip := false
+		for _, w := range []string{"@webhook", "webhook.", "(webhook", " webhook", ",webhook", "legacy_extra"} {
+			if bytes.Contains(aj, []byte(w)) {
+				skip = true
+			}
+		}
+		if skip {
+			c.Count("C02-palette-skipped-reads-webhook")
+			continue
+		}
+		// a send_email whose subject or body evaluates to blanks, a ticket with a blank note: what is logged must read back
+		if r.Chance(60) {
+			aj = c02AddActions(aj, fu, []map[string]any{
+				{"uuid": fmt.Sprintf("%08x-3333-4000-8000-%012x", 0xe0000000+i, i), "type": "send_email", "addresses": []string{"a@example.com"},
+					"subject": Pick(r, []string{"@fields.nope @fields.nada", "  ", "@(\" \")", "Hi @contact.name"}), "body": Pick(r, []string{"Body", "@fields.nope @fields.nada", "x"})},
+			})
+		}
+		var inputs []string
+		for k := r.Range(1, 3); k > 0; k-- {
+			inputs = append(inputs, Pick(r, []string{"red", "blue", "hmm", ""}))
+		}
+		desc := map[string]any{"assets": json.RawMessage(aj), "flow_uuid": fu, "inputs": inputs, "seed": i, "shape": shape}
+		var live, stored c08Out
+		var e1, e2 error
+		if c.Guard("M-palette-restart", "panic:scenario", desc, func() {
+			live, e1 = c08Execute(aj, fu, int64(i), inputs, false)
+			stored, e2 = c08Execute(aj, fu, int64(i), inputs, true)
+		}) {
+			continue
+		}
+		if e1 != nil || e2 != nil {
+			c.Count("C02-palette-assets-rejected")
+			continue
+		}
+		c.Count("check:M-palette-restart")
+		c.Eval("palette|" + shape + "|" + fmt.Sprint(len(live)))
+		if digest(live) != digest(stored) {
+			k, av, bv := firstDiff(live, stored)
+			wa, wb := diffWindow(av, bv)
+			d := map[string]any{"differs_at": k, "in_memory": wa, "stored_and_read_back": wb}
+			for x, y := range desc {
+				d[x] = y
+			}
+			sig := "palette-restart-differs:" + strings.TrimRight(k, "0123456789")
+			if _, bad := stored["read-error"]; bad {
+				sig = "stored-session-does-not-read-back"
+				d["read_error"] = stored["read-error"]
+			}
+			c.Fail("monitor", "M-palette-restart", sig, "a session stored and read back between sprints behaves differently from the one kept in memory", d)
+		}
+	}
+}
+
+// appends actions to the first node of the flow
+func c02AddActions(assetsJSON []byte, flowUUID string, actions []map[string]any) []byte {
+	var all map[string]json.RawMessage
+	if json.Unmarshal(assetsJSON, &all) != nil {
+		return assetsJSON
+	}
+	var fl []map[string]any
+	if json.Unmarshal(all["flows"], &fl) != nil {
+		return assetsJSON
+	}
+	for _, f := range fl {
+		if f["uuid"] == flowUUID {
+			if nodes, ok := f["nodes"].([]any); ok && len(nodes) > 0 {
+				if n0, ok := nodes[0].(map[string]any); ok {
+					as, _ := n0["actions"].([]any)
+					for _, a := range actions {
+						as = append(as, a)
+					}
+					n0["actions"] = as
+				}
+			}
+		}
+	}
+	fb, _ := json.Marshal(fl)
+	all["flows"] = fb
+	b, _ := json.Marshal(all)
+	return b
 }
 
 func compareBranches(a, b []branchCall) string {
